@@ -283,7 +283,20 @@ def spliceOp (j : Json) : Except String Res := do
     | some (k1, q1, s1), some (_, q2, s2), some r1, some r2 =>
       !(k1 == "again" && q1 == q2 && s1 == s2) || r1 == r2
     | _, _, _, _ => true
-  pure { model := Json.arr out, preds := [("short_delivery_ends_feed", shortOk), ("same_position_same_answer", againOk)],
+  -- the feed ends only when every item of every source has been delivered (scripts that never
+  -- skip: every advancing step starts at offset 0)
+  let noSkips := stepsInfo.all fun (k, _, st) => k != "h" || st == 0
+  let hRounds := (rounds.zip stepsInfo).filter fun (_, (k, _, _)) => k == "h"
+  let deliveredH : Nat := hRounds.foldl (fun n (rd, _) => match rd with
+    | Json.arr parts => match parts[0]? with | some (Json.arr tags) => n + tags.size | _ => n
+    | _ => n) 0
+  let endedI := hRounds.any fun (rd, _) => match rd with
+    | Json.arr parts => parts[1]? == some (Json.bool true)
+    | _ => false
+  let totalItems := (sources.map fun s => match s.page with | some l => l.length | none => 0).foldl (· + ·) 0
+  let endOk := !noSkips || !endedI || deliveredH == totalItems
+  pure { model := Json.arr out, preds := [("short_delivery_ends_feed", shortOk), ("same_position_same_answer", againOk),
+                                          ("ends_only_when_all_sources_are_exhausted", endOk)],
          nontrivial := total ≥ 3 && sources.length ≥ 2 }
 
 end Ops
